@@ -24,6 +24,7 @@ structure DS where
   fixArg : Bool := true
   fixVar : Bool := true
   fixIdx : Bool := true
+  fixPair : Bool := true
   pagekb : Nat := 4
   now : Nat := 1000
   ru : Option (Nat × Nat) := some (0, 0)
@@ -42,7 +43,7 @@ def DS.cfg (d : DS) : ECfg :=
     argSize := fun f => d.args.lookup f,
     retSize := fun f => d.rets.lookup f,
     watchCpu := d.watchCpu, varSizes := d.varSizes,
-    fixArg := d.fixArg, fixVar := d.fixVar, fixIdx := d.fixIdx }
+    fixArg := d.fixArg, fixVar := d.fixVar, fixIdx := d.fixIdx, fixPair := d.fixPair }
 
 def DS.watchedVals (d : DS) : List Nat := d.watched.map fun k => d.vars.getD k 0
 
@@ -90,6 +91,7 @@ def applyCfg (d : DS) (item : String) : DS :=
   | "fixarg" => { d with fixArg := n != 0 }
   | "fixvar" => { d with fixVar := n != 0 }
   | "fixidx" => { d with fixIdx := n != 0 }
+  | "fixpair" => { d with fixPair := n != 0 }
   | "pagekb" => { d with pagekb := n }
   | _ => d
 
